@@ -20,6 +20,11 @@ NA = {
 }
 
 CLAIMS = {
+    'C06': dict(
+        category='exploration', technique='deterministic simulation: maps reached by seeded API histories, exported through a simulated text file (host newline mode) and delivered to the parser under seeded chunk/file schedules; observation walker + ID bijection as oracle',
+        engine='history-machine+E1-stream+E2-simfs',
+        text='Seeded map specs (entities, outputs in both separator/instance forms, fixups, hidden objects, brush entities, prisms and arbitrary faces, displacements power 1-4 with vertex data, multiblend and allowed verts, nested visgroups, groups, cameras, cordons, Strata viewports/point data) are realised through the public API, mutated by a seeded API history, exported (minimal/disp_multiblend seeded), sent through a simulated file in \\n or \\r\\n mode and a seeded delivery schedule, parsed (preserve_ids seeded) and exported again. Every observed field of the re-parsed map must equal the original within the stated tolerances (IDs up to a consistent per-kind bijection) and the second text must equal the first; all .vmf files under tests/ are also cycled.',
+        note='Map contents are sampled; strings avoid what the format cannot represent; one open known finding (negative-zero text) is suppressed by exact fingerprint.', ref='5/C06'),
     'C07': dict(
         category='exploration', technique='deterministic simulation: seeded operation histories with swarm-disabled op kinds, cooperative reader tasks (live iterators stepped between mutations), invariant vs. a scan reference model after every step',
         engine='history-machine+E4-tasks',
